@@ -25,7 +25,7 @@ DECIDES = (
     "output named by the function (C03.DIMENSIONS)."
     " every 'ratio == 1' switch of the relations is the same purely absolute test against TOL, no relative closeness test (numpy isclose/allclose defaults) anywhere in the grading modules except the two length-uniformity tests (C03.UNIT-RATIO-TESTS); a chop re-created for another edge hands exactly two quantities to the closure (C03.COPY-WELL-POSED = C04.PRESERVE-CARRIED)."
     ' No logarithm argument or result in grading.relations is clamped into range: an unrealisable request surfaces as an error, not as a repaired count (C03.REJECT-NOT-REPAIR).'
-    ' Nothing in the grading package memoises a value computed from state its class changes later (C03.NO-MEMO); root finders run with default tolerances (C03.SOLVER-TOLERANCE); nothing is rounded to decimals (C03.NO-ROUNDING). Every relation taking a total / cell-to-cell expansion ends in a raise when run abstractly with that ratio at 0, -0.5 and -2 (C03.RATIO-REJECTION).'
+    ' Nothing in the grading package memoises a value computed from state its class changes later (C03.NO-MEMO); root finders run with default tolerances (C03.SOLVER-TOLERANCE); nothing is rounded to decimals (C03.NO-ROUNDING). Every relation taking a total / cell-to-cell expansion ends in a raise when run abstractly with that ratio at 0, -0.5 and -2 (C03.RATIO-REJECTION); every result of a get_count__* relation is rounded up, int(x) + 1 or a ceiling (C03.COUNT-ROUNDS-UP).'
 )
 NOT_DECIDED = (
     "that the formulas are the geometric-progression identities, rounding of counts, behaviour near ratio 1, finiteness - identities "
@@ -877,4 +877,69 @@ def ratio_rejection(repo: Repo) -> RuleRun:
 ratio_rejection.rule_id = "C03.RATIO-REJECTION"
 
 
-RULES = [registry_agreement, closure, invert_complete, validation_siblings, dimensions, bracket_siblings, unit_ratio_tests, copy_well_posed, no_stale_lazy_cache, reject_not_repair, no_memo, solver_tolerance, no_rounding, ratio_rejection]
+# --------------------------------------------------------------------------------------------
+def count_rounds_up(repo: Repo) -> RuleRun:
+    """'... to within the rounding of count to the next whole cell (never coarser than requested ...)': a relation that computes
+    a cell count from sizes / ratios obtains a real number of cells and must round it UP (int(x) + 1 or a ceiling); a bare
+    truncation, floor or round-to-nearest leaves fewer cells than requested, i.e. cells larger than the requested size, for
+    every non-integer quotient."""
+    r = RuleRun(PROP, "C03.COUNT-ROUNDS-UP", floor=5, what="every result of a get_count__* relation is a real cell number rounded up (int(x) + 1 or ceil), never truncated / floored / rounded to nearest")
+
+    def classify(e: ast.expr, defs: Dict[str, List[ast.expr]], depth: int = 0) -> Tuple[str, ast.expr]:
+        nm = (attr_chain(e.func) or "").split(".")[-1] if isinstance(e, ast.Call) else ""
+        if isinstance(e, ast.BinOp) and isinstance(e.op, ast.Add):
+            for a, b in ((e.left, e.right), (e.right, e.left)):
+                if isinstance(b, ast.Constant) and b.value == 1 and isinstance(a, ast.Call) and (attr_chain(a.func) or "").split(".")[-1] in ("int", "floor", "trunc"):
+                    return "up", e
+        if nm == "ceil":
+            return "up", e
+        if nm == "int" and e.args:
+            inner = e.args[0]
+            if isinstance(inner, ast.Call) and (attr_chain(inner.func) or "").split(".")[-1] == "ceil":
+                return "up", e
+            if isinstance(inner, ast.BinOp) and isinstance(inner.op, ast.Add) and any(isinstance(x, ast.Constant) and x.value == 1 for x in (inner.left, inner.right)):
+                return "up", e  # int(x + 1) == int(x) + 1 for x >= 0
+            return "down", e
+        if nm in ("floor", "trunc", "round", "rint"):
+            return "down", e
+        if isinstance(e, ast.Name) and depth < 3 and len(defs.get(e.id, [])) == 1:
+            return classify(defs[e.id][0], defs, depth + 1)
+        if isinstance(e, ast.IfExp):
+            a, b = classify(e.body, defs, depth), classify(e.orelse, defs, depth)
+            return (a if a[0] != "up" else b)
+        return "unknown", e
+
+    n = 0
+    for fn in relation_functions(repo):
+        if not fn.name.startswith("get_count__"):
+            continue
+        defs: Dict[str, List[ast.expr]] = {}
+        for st in walk_shallow(fn.node):
+            if isinstance(st, ast.Assign) and len(st.targets) == 1 and isinstance(st.targets[0], ast.Name):
+                defs.setdefault(st.targets[0].id, []).append(st.value)
+        k = 0
+        for st in walk_shallow(fn.node):
+            if not (isinstance(st, ast.Return) and st.value is not None):
+                continue
+            kind, at = classify(st.value, defs)
+            if kind == "unknown":
+                raise AnalysisError(f"{fn.name}: the result '{ast.unparse(st.value)[:60]}' is not a recognised rounding of a cell number (int(x) + 1, ceil(x), int(x), floor, round)")
+            n += 1
+            r.check(
+                kind == "up",
+                fn,
+                f"result #{k} '{ast.unparse(st.value)[:50]}' rounds up",
+                f"{fn.name} returns '{ast.unparse(at)[:70]}': the real number of cells is truncated / rounded down instead of up (its sibling results are int(x) + 1), so for every non-integer quotient "
+                "one cell fewer than needed is made and the cells are larger than the requested size - e.g. Chop(start_size=0.3, end_size=0.3).calculate(1) gives 3 cells of 0.333",
+                st,
+                key=f"result#{k}",
+            )
+            k += 1
+    r.require(n >= 5, f"only {n} count results found in grading.relations")
+    return r
+
+
+count_rounds_up.rule_id = "C03.COUNT-ROUNDS-UP"
+
+
+RULES = [registry_agreement, closure, invert_complete, validation_siblings, dimensions, bracket_siblings, unit_ratio_tests, copy_well_posed, no_stale_lazy_cache, reject_not_repair, no_memo, solver_tolerance, no_rounding, ratio_rejection, count_rounds_up]
